@@ -119,6 +119,19 @@ def impl_items(ctx, ex):
             exp = norm(ex, src)
             if r["status"] != "ok" or not r.get("items") or r["items"][0]["canon"] != exp:
                 ctx.violation("B:C14:impl:%s" % src[:80], "impl item not re-emitted unchanged", {"layer": "B", "args": op, "item": src, "result": r, "expected": exp})
+    # error paths of impl items: the impl - with every foreign attribute, in order - is still emitted next to the compile error
+    body = "{ type Output = X; #[inline] fn add(self, rhs: X) -> X { X(self.0 + rhs.0) } }"
+    for pre, sib, post, args in [("/// doc\n #[allow(unused)] ", "#[derive_ex]", " #[cfg(all())] ", "Add"), ("#[doc = \"a\"] ", "#[derive_ex = 1]", "", "Add"), ("", "#[derive_ex::derive_ex]", " #[allow(dead_code)] /// d\n ", "AddAssign"),
+                                 ("#[allow(unused)] ", "#[derive_ex(NoSuch)]", " /// tail\n ", "Add"), ("/// only foreign\n #[must_use] ", "", "", "Sub"), ("#[allow(unused)] ", "#[derive_ex(AddAssign)]", " /// between\n ", "Add, , bad")]:
+        src = "%s%s%simpl core::ops::Add<X> for X %s" % (pre, sib, post, body)
+        want = norm(ex, "%s%simpl core::ops::Add<X> for X %s" % (pre, post, body))
+        r = ex.attr(args, src)
+        n += 1
+        its = r.get("items") or []
+        ok = r["status"] == "ok" and len(its) >= 2 and its[0]["canon"] == want and any(i["kind"] == "compile_error" for i in its[1:])
+        if not ok:
+            ctx.violation("B:C14:impl-error:%s:%s" % (args, src[:90]), "derivation on an impl item fails, but the impl is not re-emitted with all its foreign attributes next to the error",
+                          {"layer": "B", "args": args, "item": src, "expected": want, "got": its[0]["canon"] if its else None, "result": r if not its else None})
     return n
 
 
